@@ -2369,7 +2369,11 @@ func (t *FnTrans) runReturnGhosts(x *ssa.Return) {
 		res = append(res, SVal{S: t.term(r), T: t.resTypes[i], Sort: t.sortOf(t.resTypes[i])})
 	}
 	for _, g := range t.ghostAtReturn {
-		t.ghostUpdate(g, t.retEnv(res))
+		renv := t.retEnv(res)
+		if renv.local == nil {
+			renv.local = func(name string) (SVal, bool) { return t.localHere(name) }
+		}
+		t.ghostUpdate(g, renv)
 	}
 }
 
